@@ -170,6 +170,8 @@ func optionalEmpty(k string, i int) bool {
 		return i == 0
 	case "netop", "netopsrc":
 		return i == 1
+	case "telemetry":
+		return true
 	}
 	return false
 }
@@ -180,10 +182,12 @@ func optionalEmpty(k string, i int) bool {
 // the prefix inference for foreign wrappers cannot tell an empty
 // prefix from none; the property list restricts C01, C09 and C10 to
 // non-empty strings for that reason). Empty strings are therefore
-// generated only where no other text depends on them: as hint or
-// detail, and as the own message of an *outermost* wrapper that
+// generated only where no other text depends on them or where the
+// library documents what they mean: as hint or detail, as the prefix
+// of WithMessage / Wrap ("the cause text alone when the prefix is
+// empty"), and as the own message of an *outermost* wrapper that
 // replaces the whole message.
-var emptyAnywhere = []string{"hint", "detail"}
+var emptyAnywhere = []string{"hint", "detail", "withmsg", "wrap"}
 var emptyAtRoot = []string{"uwrapoverride", "uopt", "rwrapfull", "handledmsg"}
 
 // A Mark reference that is a bare leaf may have the empty message:
